@@ -437,7 +437,9 @@ Proof.
     assert (HX : X = wcnf_lines (map fst fl2) st') by exact Hb; rewrite HX
   end.
   rewrite <- (app_nil_r (map fst fl2)), wcnf_skip_filler by exact Hfl2.
-  cbn [wcnf_lines]. rewrite (slice_panics_nozero _ J4).
+  cbn [wcnf_lines].
+  replace (w_relax st' - w_nbvars st' - 1 <? 0) with false by (symmetry; apply Z.ltb_ge; lia).
+  rewrite (slice_panics_nozero _ J4).
   rewrite J1, J2, Hitems. reflexivity.
 Qed.
 
